@@ -64,6 +64,7 @@ fn main() {
                 for l in &w.lines { writeln!(out, "{l}").unwrap(); }
                 for a in &w.alarms { writeln!(out, "#alarm {a}").unwrap(); }
             }
+            for c in genr::cells_report() { writeln!(out, "#cell {c}").unwrap(); }
         }
         "run" => {
             let stdin = std::io::stdin();
